@@ -219,8 +219,8 @@ func gaussJordanUpperTriangular(a, x Matrix, b Vector, submatrix []bool) error {
           goto singular
         }
       }
-      // loop over colums in a
-      for k := n-1; k >= 0; k-- {
+      // loop over colums in a (a is upper triangular: a[i,k] = 0 for k < i)
+      for k := n-1; k >= i; k-- {
         if !submatrix[k] {
           continue
         }
